@@ -34,3 +34,6 @@
 ; reading a stream: every part between separator lines is decoded, in order, none skipped; the first failure is the error
 (define-fun-rec tomlDecE ((ps SLst)) Bool (ite ((_ is SNil) ps) false (or (isErr (tomlParseE (shd ps))) (tomlDecE (stl ps)))))
 (define-fun-rec tomlDecF ((ps SLst)) Lst (ite ((_ is SNil) ps) LNil (LCons (tomlParseF (shd ps)) (tomlDecF (stl ps)))))
+; the JSON reader: the values the decoder yields, in order, up to the end of the text
+(define-fun-rec jsonReadF ((c Int) (s String) (k Int)) Lst
+  (ite (or (< k 0) (>= k (decCount c s))) LNil (LCons (decV c s k) (jsonReadF c s (+ k 1)))))
